@@ -17,6 +17,7 @@ package main
 import (
 	"flag"
 	"fmt"
+	"math"
 	"os"
 	"strconv"
 	"strings"
@@ -37,7 +38,14 @@ type G struct {
 	wd   *graph.WeightedDirected
 
 	holds []*holdT
+
+	// scale: every weight k of the trace is the float64 k*2^scale in the Go graph (exact), and every weight,
+	// distance and total printed is multiplied back by 2^-scale (exact), so the integer model predicts it exactly
+	scale int
 }
+
+func (g *G) up(k float64) float64 { return math.Ldexp(k, g.scale) }
+func (g *G) dn(x float64) string  { return ff(math.Ldexp(x, -g.scale)) }
 
 func newG(kind string, n int) *G {
 	g := &G{kind: kind, n: n}
@@ -240,13 +248,13 @@ func (g *G) render(f []string, obj any) string {
 		for _, e := range m.Edges() {
 			v := e.Either()
 			w := e.Other(v)
-			es = append(es, fmt.Sprintf("%d.%d.%s", v, w, ff(e.Weight())))
+			es = append(es, fmt.Sprintf("%d.%d.%s", v, w, g.dn(e.Weight())))
 		}
 		s := strings.Join(es, ",")
 		if len(es) == 0 {
 			s = "_"
 		}
-		return s + ";" + ff(m.Weight())
+		return s + ";" + g.dn(m.Weight())
 	case "SPT":
 		t := obj.(*graph.ShortestPathTree)
 		out := make([]string, 0, g.n)
@@ -258,13 +266,13 @@ func (g *G) render(f []string, obj any) string {
 			}
 			var es []string
 			for _, e := range path {
-				es = append(es, fmt.Sprintf("%d.%d.%s", e.From(), e.To(), ff(e.Weight())))
+				es = append(es, fmt.Sprintf("%d.%d.%s", e.From(), e.To(), g.dn(e.Weight())))
 			}
 			s := strings.Join(es, ",")
 			if len(es) == 0 {
 				s = "_"
 			}
-			out = append(out, ff(dist)+":"+s)
+			out = append(out, g.dn(dist)+":"+s)
 		}
 		if len(out) == 0 {
 			return "_"
@@ -312,11 +320,11 @@ func (g *G) adj() string {
 		case "WU":
 			for _, e := range g.wu.Adj(v) {
 				a := e.Either()
-				es = append(es, fmt.Sprintf("%d.%d.%s", a, e.Other(a), ff(e.Weight())))
+				es = append(es, fmt.Sprintf("%d.%d.%s", a, e.Other(a), g.dn(e.Weight())))
 			}
 		case "WD":
 			for _, e := range g.wd.Adj(v) {
-				es = append(es, fmt.Sprintf("%d.%d.%s", e.From(), e.To(), ff(e.Weight())))
+				es = append(es, fmt.Sprintf("%d.%d.%s", e.From(), e.To(), g.dn(e.Weight())))
 			}
 		}
 		out = append(out, wl(es))
@@ -361,13 +369,13 @@ func (g *G) run(op string) string {
 		case "WU":
 			l := make([]graph.UndirectedEdge, len(es))
 			for i, e := range es {
-				l[i] = graph.VerifUndirectedEdge(e.v, e.w, float64(e.wt))
+				l[i] = graph.VerifUndirectedEdge(e.v, e.w, g.up(float64(e.wt)))
 			}
 			g.wu = graph.NewWeightedUndirected(g.n, l...)
 		case "WD":
 			l := make([]graph.DirectedEdge, len(es))
 			for i, e := range es {
-				l[i] = graph.VerifDirectedEdge(e.v, e.w, float64(e.wt))
+				l[i] = graph.VerifDirectedEdge(e.v, e.w, g.up(float64(e.wt)))
 			}
 			g.wd = graph.NewWeightedDirected(g.n, l...)
 		}
@@ -394,6 +402,7 @@ func (g *G) run(op string) string {
 		wt := 0.0
 		if len(f) > 3 {
 			wt, _ = strconv.ParseFloat(f[3], 64)
+			wt = g.up(wt)
 		}
 		switch g.kind {
 		case "U":
@@ -421,6 +430,18 @@ func (g *G) run(op string) string {
 			return "_"
 		}
 		return strings.Join(ev, ",")
+	case "PLEN":
+		// number of edges of Paths(s,strat).To(v) for every v (-1: no path); for graphs too large to print all paths
+		p := g.paths(a(2), strat(f[1]))
+		ls := make([]int, g.n)
+		for v := 0; v < g.n; v++ {
+			if path, ok := p.To(v); ok {
+				ls[v] = len(path) - 1
+			} else {
+				ls[v] = -1
+			}
+		}
+		return dotted(ls)
 	case "PATH":
 		p := g.paths(a(2), strat(f[1]))
 		if path, ok := p.To(a(3)); ok {
@@ -462,9 +483,17 @@ func (g *G) guarded(op string) string {
 	}
 }
 
-func runCase(w *tr.W, kind string, n int, ops []string) {
-	w.Begin("%s %d", kind, n)
+func runCase(w *tr.W, kind string, n int, ops []string) { runCaseS(w, kind, n, 0, ops) }
+
+// runCaseS: header "<kind> <n> [s<exp>]"; with s<exp> all weights are scaled by 2^exp inside the Go graph.
+func runCaseS(w *tr.W, kind string, n int, scale int, ops []string) {
+	if scale != 0 {
+		w.Begin("%s %d s%d", kind, n, scale)
+	} else {
+		w.Begin("%s %d", kind, n)
+	}
 	g := newG(kind, n)
+	g.scale = scale
 	for _, op := range ops {
 		r := g.guarded(op)
 		w.Op(op, r)
@@ -579,7 +608,7 @@ func exhaustive(w *tr.W, r *rng.R, kind string, n, maxE int, ws []int, keepNum, 
 					}
 				}
 			}
-			runCase(w, kind, n, append(edgeOps(kind, es), battery(kind, n, src, len(cur)%2 == 1)...))
+			runCaseS(w, kind, n, pickScale(r, kind), append(edgeOps(kind, es), battery(kind, n, src, len(cur)%2 == 1)...))
 		}
 		if len(cur) == maxE {
 			return
@@ -612,9 +641,18 @@ func randomGraphs(w *tr.W, r *rng.R, kind string, cases, maxN int) {
 		if m > 200 {
 			m = 200
 		}
-		wmode := r.Intn(5)
+		wmode := r.Intn(6)
+		scale := pickScale(r, kind)
+		if wmode == 5 && weighted(kind) {
+			scale = -40 // mixed magnitudes: k*2^-40 together with k*2^-10 (sums stay exact in float64)
+		}
 		wt := func() int {
 			switch wmode {
+			case 5:
+				if r.Bool() {
+					return r.Intn(1000)
+				}
+				return r.Intn(1000) << 30
 			case 0:
 				return 0 // all zero
 			case 1:
@@ -714,8 +752,16 @@ func randomGraphs(w *tr.W, r *rng.R, kind string, cases, maxN int) {
 		if kind == "WD" && r.Chance(1, 10) {
 			ops = append(ops, fmt.Sprintf("SPT %d", n))
 		}
-		runCase(w, kind, n, ops)
+		runCaseS(w, kind, n, scale, ops)
 	}
+}
+
+// pickScale: weighted graphs get their integer weights scaled by an exact power of two in half of the cases
+func pickScale(r *rng.R, kind string) int {
+	if !weighted(kind) {
+		return 0
+	}
+	return []int{0, 0, -40, -60}[r.Intn(4)]
 }
 
 func edgeList(kind string, es []edge) string {
@@ -776,7 +822,7 @@ func ctor(w *tr.W, r *rng.R, graphs int) {
 					ops = append(ops, edgeOps(kind, []edge{e})[0], "ADJ")
 				}
 				ops = append(ops, battery(kind, n, src, false)...)
-				runCase(w, kind, n, ops)
+				runCaseS(w, kind, n, pickScale(r, kind), ops)
 			}
 		}
 	}
@@ -851,7 +897,7 @@ func retain(w *tr.W, r *rng.R, graphs int) {
 			hold(fmt.Sprintf("PATHS %s %d", strats[r.Intn(3)], r.Intn(n)))
 			interfere()
 			useAll()
-			runCase(w, kind, n, ops)
+			runCaseS(w, kind, n, pickScale(r, kind), ops)
 		}
 	}
 }
@@ -936,8 +982,120 @@ func big(w *tr.W, r *rng.R, thorough bool) {
 	}
 }
 
+// huge: 5000..9000 vertices: wide BFS frontiers (several list blocks of 1024 in flight) followed by long thin
+// tails, lollipops, grids, random graphs with a tail; validated natively by the driver (independent BFS).
+func huge(w *tr.W, r *rng.R, thorough bool) {
+	type shape struct {
+		name string
+		gen  func() (int, []edge, int) // n, edges (oriented away from vertex 0), a vertex far down the tail
+	}
+	path := func(es []edge, from, start, k int) []edge {
+		prev := from
+		for i := 0; i < k; i++ {
+			es = append(es, edge{prev, start + i, r.Intn(5)})
+			prev = start + i
+		}
+		return es
+	}
+	shapes := []shape{
+		{"fanpath", func() (int, []edge, int) {
+			f1, f2, tail := 50+r.Intn(20), 45+r.Intn(15), 3000+r.Intn(500)
+			var es []edge
+			id := 1
+			l1 := make([]int, f1)
+			for i := range l1 {
+				l1[i] = id
+				es = append(es, edge{0, id, r.Intn(5)})
+				id++
+			}
+			last := 0
+			for _, p := range l1 {
+				for j := 0; j < f2; j++ {
+					es = append(es, edge{p, id, r.Intn(5)})
+					last = id
+					id++
+				}
+			}
+			es = path(es, last, id, tail)
+			return id + tail, es, id + tail - 1
+		}},
+		{"lollipop", func() (int, []edge, int) {
+			b, tail := 5500+r.Intn(700), 2800+r.Intn(400)
+			var es []edge
+			for i := 1; i < b; i++ {
+				es = append(es, edge{r.Intn(i), i, r.Intn(5)})
+			}
+			for i := 0; i < b; i++ {
+				es = append(es, edge{r.Intn(b), r.Intn(b), r.Intn(5)})
+			}
+			es = path(es, b-1, b, tail)
+			return b + tail, es, b + tail - 1
+		}},
+		{"grid", func() (int, []edge, int) {
+			rows, cols := 65+r.Intn(15), 75+r.Intn(15)
+			var es []edge
+			for i := 0; i < rows; i++ {
+				for j := 0; j < cols; j++ {
+					v := i*cols + j
+					if j+1 < cols {
+						es = append(es, edge{v, v + 1, r.Intn(5)})
+					}
+					if i+1 < rows {
+						es = append(es, edge{v, v + cols, r.Intn(5)})
+					}
+				}
+			}
+			return rows * cols, es, rows*cols - 1
+		}},
+		{"randtail", func() (int, []edge, int) {
+			b, tail := 3500+r.Intn(1000), 2200+r.Intn(600)
+			var es []edge
+			for i := 1; i < b; i++ {
+				lo := i - 40
+				if lo < 0 {
+					lo = 0
+				}
+				es = append(es, edge{lo + r.Intn(i-lo), i, r.Intn(5)})
+			}
+			for i := 0; i < 2*b; i++ {
+				es = append(es, edge{r.Intn(b), r.Intn(b), r.Intn(5)})
+			}
+			es = path(es, b/2, b, tail)
+			return b + tail, es, b + tail - 1
+		}},
+	}
+	kinds := []string{"U", "D", "WU", "WD"}
+	rounds := 1
+	if thorough {
+		rounds = 4
+	}
+	for round := 0; round < rounds; round++ {
+		for si, sh := range shapes {
+			for ki, kind := range kinds {
+				n, es, far := sh.gen()
+				var ops []string
+				if (si+ki+round)%2 == 0 {
+					ops = []string{"NEW " + edgeList(kind, es)}
+				} else {
+					ops = edgeOps(kind, es)
+				}
+				mid := es[len(es)/2].w
+				ops = append(ops,
+					"PLEN BFS 0", fmt.Sprintf("PLEN BFS %d", mid), "PLEN DFSi 0",
+					fmt.Sprintf("PATH BFS 0 %d", far), fmt.Sprintf("PATH BFS 0 %d", n/2), fmt.Sprintf("PATH DFSi 0 %d", far),
+					fmt.Sprintf("PATH BFS %d %d", mid, far),
+					"TRAV BFS 0", fmt.Sprintf("TRAV BFS %d", mid), "ORD BFS", "ORD DFSi")
+				if !directedK(kind) {
+					ops = append(ops, "CC", fmt.Sprintf("PATH DFS %d 0", far))
+				}
+				runCase(w, kind, n, ops)
+			}
+		}
+	}
+}
+
 func main() {
-	mode := flag.String("mode", "exhaustive", "exhaustive|random|big|ctor|retain")
+	mode := flag.String("mode", "exhaustive", "exhaustive|random|big|ctor|retain|huge")
 	tier := flag.String("tier", "quick", "quick|thorough")
 	replay := flag.String("replay", "", "case file to re-execute")
 	flag.Parse()
@@ -952,7 +1110,11 @@ func main() {
 		for _, c := range cs {
 			h := strings.Fields(c.Head)
 			n, _ := strconv.Atoi(h[1])
-			runCase(w, h[0], n, c.Ops)
+			scale := 0
+			if len(h) > 2 && strings.HasPrefix(h[2], "s") {
+				scale, _ = strconv.Atoi(h[2][1:])
+			}
+			runCaseS(w, h[0], n, scale, c.Ops)
 		}
 		return
 	}
@@ -995,6 +1157,8 @@ func main() {
 		}
 	case "big":
 		big(w, rng.FromEnv(1403), thorough)
+	case "huge":
+		huge(w, rng.FromEnv(1406), thorough)
 	case "ctor":
 		k := 40
 		if thorough {
